@@ -207,11 +207,12 @@ def edge_state(A, unknown=True, proj=None, value=None):
     init = None
     # depends_on builds the initial EdgeInfo aggregate: take it from the add_edge call's argument if recorded, else Unknown-first
     L = A.L
-    fields = []
-    for f in L.edge_fields:
-        a = f["ty"].get("adt")
-        fields.append(fin(a, [A.uni.fin[a][0]]) if a in A.uni.fin else TOP)
-    cell = adt(L.edgeinfo, {0: tuple(fields)})
+    cell = None
+    for v in r.by_kind("add_edge"):
+        if v["weight"] is not None and v["weight"][0] == "adt" and v["weight"][1] == L.edgeinfo:
+            cell = v["weight"]
+    if cell is None:
+        raise Imprecision("anchor: depends_on does not add an edge with a known initial weight")
     if not unknown and proj is not None:
         cell = av_set(cell, proj, value, A.uni)
     st.heap["__edge_default__"] = cell
@@ -261,7 +262,7 @@ def check_C16(A, R, tier):
             R.ob("R16.2", "event_job_finished_success | %s | a changed output can be detected" % A.sname(s), len(errs) >= 1,
                  detail="no changed-output error is reachable for a validated Ephemeral")
             for v in errs:
-                calls = [c for c in run.by_kind("strategy_call") if c["method"] == "is_history_altered" and c["fid"] == v["fid"]]
+                calls = [c for c in run.by_kind("strategy_call") if c["method"] == "is_history_altered"]
                 okc = False
                 for c in calls:
                     a = c["args"]
@@ -494,9 +495,11 @@ def check_C03(A, R, tier):
     R.floor("R3.3", "validation function", len(uvs), 1)
     vt = validation_ty(A)
     for b in uvs:
-        eis = [t for t in [blk["term"]["t"] for blk in b.blocks if not blk["cleanup"]] if t["k"] == "call" and M.callee_name(t)
-               and A.facts.body(M.callee_name(t)) is not None and A.facts.body(M.callee_name(t)).locals[0]["s"].startswith("std::result::Result<bool")]
-        ei_names = set(M.callee_name(t) for t in eis)
+        g = call_graph(A)
+        ei_names = set(n for n in reachable_from(g, [b.name]) if n != b.name and A.facts.body(n) is not None
+                       and A.facts.body(n).locals[0]["s"].startswith("std::result::Result<bool")
+                       and any(blk["term"]["t"]["k"] == "call" and (M.callee_of(blk["term"]["t"]) or ("",))[0] == STRAT + "is_history_altered"
+                               for blk in A.facts.body(n).blocks))
         R.floor("R3.3", "dependency checks called by the validation function", len(ei_names), 1)
 
         validated = validated_verdict(A, sk)
@@ -564,7 +567,7 @@ def verdict_loop(A, b, ei_names, vt, validated):
         return None
     h = heads[0]
     from rules_more import loop_region
-    region, cont = loop_region(body, h)
+    region, cont = loop_region(body, h, A)
     if cont is None:
         return None
     loop = body.natural_loop(h)
@@ -874,8 +877,8 @@ def check_C06(A, R, tier):
         if v["kind"] == "diverging_call":
             nm = v["detail"][0] if v["detail"] else ""
             explicit = nm.endswith("begin_panic") or nm.endswith("panic_fmt") or nm.endswith("panic_display")
-            if top:
-                n_exempt += 1      # argument / protocol checks of the public API (documented misuse)
+            if top or (not v.get("cells") and (v["stack"] or ()) and v["stack"][0][0] in api):
+                n_exempt += 1      # argument / status checks of the public API (documented misuse): nothing job-specific was read yet
                 continue
             if explicit:
                 R.ob("R6.2", "%s | explicit panic is unreachable" % short(fn), False,
@@ -919,7 +922,10 @@ def check_C06(A, R, tier):
     ev_names = set(A.evaluator_fn(n).name for n in list(EVENTS) + ["event_startup"])
     for (fn, bb, variant), v in sorted(sites.items()):
         if variant == "APIError":
-            R.ob("R6.4", "%s | APIError is only raised by the event functions' own guards" % short(fn), fn in ev_names and not v["stack"], site=A.site(v))
+            chain_fns = [x[0] for x in (v["stack"] or ())] + [fn]
+            spn = A.signal_entry_names()
+            R.ob("R6.4", "%s | APIError is only raised by the event functions' own guards" % short(fn),
+                 chain_fns[0] in ev_names and not (set(chain_fns) & set(spn)), site=A.site(v))
         elif variant != "InternalError":
             R.ob("R6.4", "%s | %s is only raised by the success event" % (short(fn), variant),
                  fn == A.evaluator_fn("event_job_finished_success").name, site=A.site(v))
